@@ -169,6 +169,12 @@ class Grid2D(GridObject):
         u_ind = np.any(selected_centroids, axis=0)
         v_ind = np.any(selected_centroids, axis=1)
 
+        if np.any(u_ind) and not inverse:
+            # the sub-grid spans from the first to the last selected column and row
+            u_hit, v_hit = np.where(u_ind)[0], np.where(v_ind)[0]
+            u_ind[u_hit[0] : u_hit[-1] + 1] = True
+            v_ind[v_hit[0] : v_hit[-1] + 1] = True
+
         indices = np.kron(v_ind, u_ind).flatten()
 
         if not np.any(indices):
